@@ -617,6 +617,8 @@ func checkC03(p *Program, r *Result) {
 	checkCompactionAtomic(p, r, "C03.k")
 	r.rule("C03.s", "the needs-sorting decision follows a running maximum of the chunk's log times", 0)
 	checkSortingFlag(p, r, "C03.s")
+	r.rule("C03.u", "the chunk load order does not depend on the sorting algorithm: stable sort, or a comparator with a tie-break", 0)
+	checkChunkSortDeterministic(p, r, "C03.u")
 	r.rule("C03.g", "the yielded record and the load trigger are those of the queue entry at the cursor", 0)
 	checkCursorDiscipline(p, r, "C03.g")
 }
